@@ -28,9 +28,9 @@ SPEC = dict(
                  'g++ 12 ASan/UBSan/LSan and valgrind memcheck report what they claim to report'],
     legs=[
         Leg('regress', 'h_mirror', 'asan', opts={'mode': 'regress'}, quick=1, thorough=1, workers=1, leaks=True, min_cases=1),
-        Leg('mirror', 'h_mirror', 'asan', opts={'mode': 'mirror'}, quick=4800, thorough=240000, workers=16, leaks=True),
-        Leg('mirror_long', 'h_mirror', 'asan', opts={'mode': 'mirror', 'cmds': '1000'}, quick=32, thorough=1600, workers=16, leaks=True),
-        Leg('memcheck', 'h_mirror', 'plain', opts={'mode': 'mirror'}, quick=48, thorough=1600, workers=16, valgrind=True),
+        Leg('mirror', 'h_mirror', 'asan', opts={'mode': 'mirror'}, quick=4800, thorough=120000, workers=16, leaks=True),
+        Leg('mirror_long', 'h_mirror', 'asan', opts={'mode': 'mirror', 'cmds': '1000'}, quick=32, thorough=800, workers=16, leaks=True),
+        Leg('memcheck', 'h_mirror', 'plain', opts={'mode': 'mirror'}, quick=48, thorough=960, workers=16, valgrind=True),
     ],
     min_stats={'regress': {'selftest_oracle_fired': 3, 'quiescent_points': 30, 'mirror_comparisons': 60},
                'mirror': {'commands': 250000, 'quiescent_points': 90000, 'mirror_comparisons': 200000, 'mirror_entries_compared': 400000,
